@@ -767,6 +767,9 @@ func TestVerifC02Set(t *testing.T) {
 			vCaseStartKey(key, cases[i])
 			defer vCaseDoneKey(key)
 			defer func() { // a panic of the code under test on this goroutine: reported with the case, the others go on
+				if vc02NoRecover {
+					return
+				}
 				if r := recover(); r != nil {
 					results[i] = vC02SObs{Panic: fmt.Sprint(r)}
 				}
